@@ -238,11 +238,15 @@ func checkMain(args []string) int {
 	haveBase := readJSON(basePath, &base) == nil
 	if *writeBase {
 		nb := Baseline{Property: id}
+		vacuousAtBaseline := 0
 		for _, r := range out.results {
 			switch {
 			case r.Canary:
 				if r.Result != "unsat" {
 					nb.Canaries = append(nb.Canaries, r.Name)
+				} else {
+					fmt.Printf("VACUOUS: canary %s is unsatisfiable on the tree the baseline is taken from: contradictory assumptions or an unreachable site; fix the contract or the engine before claiming\n", r.Name)
+					vacuousAtBaseline++
 				}
 			case r.Result == "unsat" || isKnownFinding(id, r.Name):
 				// a recorded known finding stays an obligation of the property: it is reported
@@ -251,6 +255,10 @@ func checkMain(args []string) int {
 			default:
 				nb.Unclaimed = append(nb.Unclaimed, r.Name)
 			}
+		}
+		if vacuousAtBaseline > 0 {
+			fmt.Println("baseline NOT written: vacuous canaries")
+			return 2
 		}
 		writeJSON(basePath, nb)
 		base = nb
